@@ -119,7 +119,7 @@ static std::vector<uint8_t> run_call(int kind, uint64_t dseed) {
       else cplx_fftvec_mul_simple(m, res, a, b);
       grab(res, 2 * mq * 8); free(a); free(b); free(res); break;
     }
-    case K_FROM64: { int64_t* x = ints(2 * m, 49); double* o = (double*)xalloc(2 * m * 8); reim_from_znx64(S.from64, o, x); grab(o, 2 * m * 8); free(x); free(o); break; }
+    case K_FROM64: { int64_t* x = ints(2 * m, 50); double* o = (double*)xalloc(2 * m * 8); reim_from_znx64(S.from64, o, x); grab(o, 2 * m * 8); free(x); free(o); break; }
     case K_TO64: case K_S_TO64: {
       double* x = dbls(2 * m); int64_t* o = (int64_t*)xalloc(2 * m * 8);
       // the *_simple cache is keyed on (m, divisor, log2bound): threads use DIFFERENT parameters on the same dimension
@@ -146,7 +146,7 @@ static std::vector<uint8_t> run_call(int kind, uint64_t dseed) {
       cplx_to_tnx32_simple(m, dv, ovh, o, x);
       grab(o, 2 * m * 4); free(x); free(o); break;
     }
-    case K_S_FROM64: { int64_t* x = ints(2 * m, 49); double* o = (double*)xalloc(2 * m * 8); reim_from_znx64_simple(m, (uint32_t)(dseed % 51), o, x); grab(o, 2 * m * 8); free(x); free(o); break; }
+    case K_S_FROM64: { int64_t* x = ints(2 * m, 50); double* o = (double*)xalloc(2 * m * 8); reim_from_znx64_simple(m, (uint32_t)(dseed % 51), o, x); grab(o, 2 * m * 8); free(x); free(o); break; }
     case K_S_FROM_ZNX32: { int32_t* x = (int32_t*)xalloc(2 * m * 4); for (size_t i = 0; i < 2 * m; ++i) x[i] = (int32_t)r.next(); double* o = (double*)xalloc(2 * m * 8); cplx_from_znx32_simple(m, o, x); grab(o, 2 * m * 8); free(x); free(o); break; }
   }
   return out;
